@@ -248,7 +248,7 @@ fn main() {
     let dcfg = WalConfig { sync_mode: SyncMode::Manual, ..WalConfig::default() };
     let dstore = TensorStore::open_durable(&wal, dcfg.clone()).unwrap();
     let mut durable_keys: Vec<(usize, Key)> = vec![];
-    let nh = args.budget(260, 6000);
+    let nh = args.budget(600, 12000);
     for hid in 0..nh {
         let use_durable = hid % 4 == 3;
         // one class per history most of the time (contention), sometimes all classes
@@ -256,7 +256,12 @@ fn main() {
         let classes: Vec<u8> = if use_durable { classes.into_iter().map(|c| if c == 3 { 4 } else { c }).collect() } else { classes };
         let threads = rng.range(2, 4) as usize;
         let per = (rng.range(2, 4) as usize).min(12 / threads); // at most 12 operations: the in-Coq re-search is exhaustive
-        let plan = gen_plan(&mut rng, &classes, threads, per, &mut dist);
+        let mut plan = gen_plan(&mut rng, &classes, threads, per, &mut dist);
+        // histories with a scan are re-searched as a whole inside Coq: keep them at 8 operations
+        if plan.iter().flatten().any(|o| matches!(o, Op::Scan(_))) {
+            let keep = (8 / threads).max(1);
+            for t in plan.iter_mut() { t.truncate(keep); }
+        }
         let store = if use_durable { &dstore } else { &plain };
         let h = run_history(store, hid, use_durable, &plan);
         dist.hit(&format!("lin.threads.{threads}"));
